@@ -55,7 +55,9 @@ Inputs ==
 
 SampleLists ==
     {"dup_same_label", "dup_diff_label", "dup_unnamed_named", "unknown", "empty_arg", "empty_file", "only_equals", "trailing_comma",
-     "label_only", "tabs_in_arg", "blank_lines_file", "all_samples_twice"}
+     "label_only", "tabs_in_arg", "blank_lines_file", "all_samples_twice",
+     \* a repeated sample whose second label is NEW, followed by yet another new label (population ids must stay dense)
+     "dup_new_then_new", "dup_new_then_old", "dup_unnamed_then_new", "dup_twice_then_new"}
 
 Formats == {"vcf", "bcf", "npy", "text"}
 FieldsOf(f) ==
